@@ -132,16 +132,24 @@ class Ctx:
         if not cond:
             raise AnalysisError(msg)
 
-    def floor(self, rule_id: str, what: str, n: int, minimum: int) -> None:
+    def floor(self, rule_id: str, what: str, n: int, minimum: int, exact: bool = False) -> None:
+        """Fail closed when a rule matches far fewer instances than were confirmed by hand.
+
+        `minimum` is the count confirmed on the tree the rule was written for. Counts of API-level
+        things (abstract methods, backends, op-codes, RPCs: exact=True) must not drop at all.
+        Counts of *sites* (accesses, call sites, tests) legitimately shrink when a maintainer
+        removes duplication (extract-method halves them), so those only fail when they collapse
+        below half: the floor is there to catch a rule that has gone blind, not to pin the text."""
         self.count(rule_id, what, 0)
         self.per_rule[rule_id][what] = n
+        threshold = minimum if exact else max(1, (minimum + 1) // 2)
         if os.environ.get("VERIF_FLOOR_PROBE"):
-            print(f"FLOOR-PROBE {rule_id} {what}: found={n} floor={minimum}")
+            print(f"FLOOR-PROBE {rule_id} {what}: found={n} confirmed={minimum} fails-below={threshold}")
             return
-        if n < minimum:
+        if n < threshold:
             raise AnalysisError(
-                f"{rule_id}: found {n} {what}, fewer than the {minimum} confirmed by hand "
-                f"(rule would pass vacuously)")
+                f"{rule_id}: found {n} {what}, the rule was confirmed by hand on {minimum} "
+                f"(fails below {threshold}: rule would pass vacuously)")
 
 
 def finish(ctx: Ctx, evidence_dir: str, level: str = "other") -> int:
